@@ -662,6 +662,60 @@ example (ejde lon : ℝ) : ∃ r, rise_set_core ejde 27 65.73 lon 0 = .ok r ∧ 
   obtain ⟨h1, h2, _⟩ := rise_order ejde 27 65.73 lon 0 jt om c hr
   exact ⟨_, hr, h1, h2⟩
 
+/-- `rise_set` looks at the DAY of the epoch only ("We need current epoch without hours, minutes and
+    seconds"): two instants of the same civil day — any times of day — give the same result, whatever
+    the other arguments. (False of the code before the fix of finding C14-rise-time-of-day, where the
+    fraction of the day shifted every returned instant.) -/
+theorem rise_set_day_only (j j' : ℝ) (leap : Int) (lat lon alt : ℝ) (hj : 0 ≤ j) (hj' : 0 ≤ j')
+    (hd : ⌊j + 1 / 2⌋ = ⌊j' + 1 / 2⌋) :
+    rise_set j leap lat lon alt = rise_set j' leap lat lon alt := by
+  have hn : Pymeeus.Refine.EpochR.dayNo j = Pymeeus.Refine.EpochR.dayNo j' := by
+    unfold Pymeeus.Refine.EpochR.dayNo; rw [hd]
+  unfold rise_set
+  rw [Pymeeus.Refine.EpochR.get_date_civil j hj, Pymeeus.Refine.EpochR.get_date_civil j' hj']
+  simp only
+  rw [Pymeeus.Refine.EpochR.pfloor_add_fract _ _ (Pymeeus.Refine.EpochR.dayFrac_nonneg j) (Pymeeus.Refine.EpochR.dayFrac_lt_one j),
+    Pymeeus.Refine.EpochR.pfloor_add_fract _ _ (Pymeeus.Refine.EpochR.dayFrac_nonneg j') (Pymeeus.Refine.EpochR.dayFrac_lt_one j'),
+    hn]
+
+/-- e.g. 0h, 6h and 23h59 of JD 2458575.5 (2019‑04‑02). -/
+example (leap : Int) (lat lon alt : ℝ) :
+    rise_set 2458575.5 leap lat lon alt = rise_set 2458575.75 leap lat lon alt ∧
+    rise_set 2458575.5 leap lat lon alt = rise_set 2458576.4993 leap lat lon alt := by
+  constructor <;> apply rise_set_day_only <;> norm_num
+
+/-- "Sunrise and sunset instants put the Sun's centre … at the standard altitude": exact for the
+    sunrise equation's OWN Sun — whenever `rise_set` returns, the altitude formula of
+    `equatorial2horizontal` (Meeus 13.6), evaluated at the latitude, the model's declination `rise_delta`
+    and the hour angle `ω` it returns, gives exactly the standard altitude `−0.83° − dip`:
+    `sin φ sin δ + cos φ cos δ cos ω = sin h0`. (The 1° of the property is the distance between this Sun
+    and the VSOP87 one: measured.) -/
+theorem rise_altitude_exact (ejde : ℝ) (leap : Int) (lat lon alt jt om c : ℝ)
+    (h : rise_set_core ejde leap lat lon alt = .ok (jt, om, c)) :
+    Spec.SunEvents.sinAltitude (lat * (Real.pi / 180)) (rise_delta ejde leap lon) (om * (Real.pi / 180)) =
+      Real.sin (rise_h0 alt * (Real.pi / 180)) := by
+  obtain ⟨hc0, hc1, hom, _⟩ := rise_order ejde leap lat lon alt jt om c h
+  unfold rise_set_core at h
+  simp only at h
+  split_ifs at h with h1 h2 h3 h4 h5
+  simp only [Except.ok.injEq, Prod.mk.injEq] at h
+  obtain ⟨_, _, hc⟩ := h
+  have hsd : |rise_sin_delta (rise_m (rise_jstar ejde leap lon))| ≤ 1 := by
+    unfold plt pabs at h2; norm_num at h2; exact h2
+  have hs : Real.sin (rise_delta ejde leap lon) = rise_sin_delta (rise_m (rise_jstar ejde leap lon)) := by
+    unfold rise_delta pasin; exact Real.sin_arcsin (neg_le_of_abs_le hsd) (le_of_abs_le hsd)
+  have hden : Real.cos (lat * (Real.pi / 180)) * Real.cos (rise_delta ejde leap lon) ≠ 0 := by
+    unfold peq pcos pradians at h4; norm_num at h4
+    exact mul_ne_zero h4.1 h4.2
+  have hpi := Real.pi_pos
+  have hω : om * (Real.pi / 180) = Real.arccos c := by rw [hom]; field_simp
+  unfold Spec.SunEvents.sinAltitude
+  rw [hω, Real.cos_arccos hc0 hc1, ← hc, hs]
+  unfold rise_cos_om psin pcos pradians
+  have key : ∀ (a b x : ℝ), a * b ≠ 0 → a * b * (x / (a * b)) = x := fun a b x h => mul_div_cancel₀ x h
+  rw [key _ _ _ hden]
+  ring
+
 /-! ## times_rise_transit_set -/
 
 /-- "reports no times exactly when …": `(None, None, None)` is returned iff `|cos H0| > 1`, where
